@@ -89,8 +89,14 @@ func c56SkipName(m []byte, off int) int {
 
 // c56Walk classifies the structure of a DNS message and returns the element boundaries.
 func c56Walk(m []byte) (verdict int, bounds []int) {
+	verdict, bounds, _ = c56WalkDetail(m)
+	return
+}
+
+// c56WalkDetail also names the place where a malformed message breaks.
+func c56WalkDetail(m []byte) (verdict int, bounds []int, where string) {
 	if len(m) < 12 {
-		return c56Malformed, nil
+		return c56Malformed, nil, "short-header"
 	}
 	qd := int(binary.BigEndian.Uint16(m[4:]))
 	rr := int(binary.BigEndian.Uint16(m[6:])) + int(binary.BigEndian.Uint16(m[8:])) + int(binary.BigEndian.Uint16(m[10:]))
@@ -98,40 +104,46 @@ func c56Walk(m []byte) (verdict int, bounds []int) {
 	bounds = append(bounds, off)
 	for i := 0; i < qd; i++ {
 		if off == len(m) {
-			return c56CountLie, bounds
+			return c56CountLie, bounds, ""
 		}
 		n := c56SkipName(m, off)
 		if n == -2 {
-			return c56OddPointer, bounds
+			return c56OddPointer, bounds, ""
 		}
-		if n < 0 || n+4 > len(m) {
-			return c56Malformed, bounds
+		if n < 0 {
+			return c56Malformed, bounds, "question-name"
+		}
+		if n+4 > len(m) {
+			return c56Malformed, bounds, "question-type-class-cut"
 		}
 		off = n + 4
 		bounds = append(bounds, off)
 	}
 	for i := 0; i < rr; i++ {
 		if off == len(m) {
-			return c56CountLie, bounds
+			return c56CountLie, bounds, ""
 		}
 		n := c56SkipName(m, off)
 		if n == -2 {
-			return c56OddPointer, bounds
+			return c56OddPointer, bounds, ""
 		}
-		if n < 0 || n+10 > len(m) {
-			return c56Malformed, bounds
+		if n < 0 {
+			return c56Malformed, bounds, "rr-name"
+		}
+		if n+10 > len(m) {
+			return c56Malformed, bounds, "rr-fixed-part-cut"
 		}
 		rdl := int(binary.BigEndian.Uint16(m[n+8:]))
 		if n+10+rdl > len(m) {
-			return c56Malformed, bounds
+			return c56Malformed, bounds, "rr-rdata-cut"
 		}
 		off = n + 10 + rdl
 		bounds = append(bounds, off)
 	}
 	if off != len(m) {
-		return c56Trailing, bounds
+		return c56Trailing, bounds, ""
 	}
-	return c56WellFormed, bounds
+	return c56WellFormed, bounds, ""
 }
 
 // ------------------------------------------------------------ case
@@ -462,6 +474,16 @@ func c56RRs(rrs []dns.RR, skipOPT bool) []string {
 	return out
 }
 
+func c56NonOPT(rrs []dns.RR) []dns.RR {
+	var out []dns.RR
+	for _, r := range rrs {
+		if r.Header().Rrtype != dns.TypeOPT {
+			out = append(out, r)
+		}
+	}
+	return out
+}
+
 func c56Opts(rrs []dns.RR) []*dns.OPT {
 	var out []*dns.OPT
 	for _, r := range rrs {
@@ -480,7 +502,7 @@ func c56Check(tb ev.TB, rec *ev.Rec, c *c56Case) {
 		eff = c.client.IP
 	}
 	isV4 := eff.To4() != nil
-	verdict, _ := c56Walk(c.wire)
+	verdict, _, where := c56WalkDetail(c.wire)
 	expect := "dont-care"
 	switch {
 	case c.Method == "POST" && len(c.wire) > c56MaxPost:
@@ -551,7 +573,7 @@ func c56Check(tb ev.TB, rec *ev.Rec, c *c56Case) {
 		return
 	case "reject":
 		if cerr == nil {
-			key := "malformed-forwarded"
+			key := "malformed-forwarded." + where
 			if c.Method == "POST" && len(c.wire) > c56MaxPost {
 				key = "post-oversize-forwarded." + strings.TrimPrefix(c.Gen, "big:")
 				if !strings.HasPrefix(c.Gen, "big:") {
@@ -617,6 +639,10 @@ func c56Check(tb ev.TB, rec *ev.Rec, c *c56Case) {
 		if len(opts) == 0 {
 			return
 		}
+		// known duplication: go on with the OPT RR bfe appended (the last one) only
+		opts = opts[len(opts)-1:]
+		in.Extra = c56NonOPT(in.Extra)
+		c.HasECS = false
 	}
 	// the subnet option(s) over all OPT RRs, and the other options
 	var ecs []*dns.EDNS0_SUBNET
